@@ -140,7 +140,7 @@ def stack_record(ctx: Ctx, rid: int, rng: random.Random, kind: str, dims) -> dic
         deleted.append({"addr": [i, j, k], "missing": [list(m) for m in missing]})
         ctx.evaluated()
     return {"id": rid, "kind": "stack", "stack": kind, "nx": nx, "ny": ny, "nz": nz, "grid": grid_obs, "slices": slices, "deleted": deleted,
-            "entities": []}
+            "entities": [], "rings": 2}
 
 
 def round_record(ctx: Ctx, rid: int, rng: random.Random, kind: str) -> dict | None:
@@ -174,6 +174,8 @@ def round_record(ctx: Ctx, rid: int, rng: random.Random, kind: str) -> dict | No
             sketch = cb.OneCoreDisk(P([0, 0, 0]), P([1, 0, 0]), V([0, 0, 1]))
         elif kind == "fourcore":
             sketch = cb.FourCoreDisk(P([0, 0, 0]), P([1, 0, 0]), V([0, 0, 1]))
+        elif kind == "wrapped":
+            sketch = cb.WrappedDisk(P([0, 0, 0]), P([2, 0, 0]), 0.9 * s, V([0, 0, 1]))
         elif kind == "halfdisk":
             sketch = cb.HalfDisk(P([0, 0, 0]), P([1, 0, 0]), V([0, 0, 1]))
         elif kind == "oval":
@@ -213,6 +215,13 @@ def round_record(ctx: Ctx, rid: int, rng: random.Random, kind: str) -> dict | No
             def on_outer(p):
                 t = max(0.0, min(1.0, vdot(vsub(p, c1), axis) / vdot(axis, axis)))
                 return abs(vdist(p, vadd(c1, vmul(axis, t))) - radius) < tol
+        elif kind == "wrapped":
+            # the outer boundary is the square through the corner point: a face reaches it with two of the square's corners
+            c0 = list(P([0, 0, 0]))
+            radius = vdist(P([2, 0, 0]), c0)
+
+            def on_outer(p):
+                return abs(vdist(p, c0) - radius) < tol
         elif kind in ("qspline", "hspline", "fspline"):
             c0 = list(sketch.center)
             radius = 1.5 * s
@@ -248,7 +257,8 @@ def round_record(ctx: Ctx, rid: int, rng: random.Random, kind: str) -> dict | No
             ctx.violation(f"round-raises:{kind}:extruded:{type(err).__name__}", str(err), {"kind": kind})
             return None
     ctx.evaluated(f"round:{kind}")
-    return {"id": rid, "kind": "round", "stack": kind, "nx": 0, "ny": 0, "nz": 0, "grid": [], "slices": [], "deleted": [], "entities": ents}
+    return {"id": rid, "kind": "round", "stack": kind, "nx": 0, "ny": 0, "nz": 0, "grid": [], "slices": [], "deleted": [], "entities": ents,
+            "rings": 3 if kind == "wrapped" else 2}
 
 
 def run(ctx: Ctx) -> None:
@@ -272,7 +282,7 @@ def run(ctx: Ctx) -> None:
             recs.append(r)
             if len(set(dims)) >= 2:
                 ctx.nontrivial.add(f"{kind}:{dims}")
-    for kind in ["cylinder", "semicylinder", "frustum", "elbow", "extruded_ring", "expanded_ring", "onecore", "fourcore", "halfdisk", "oval", "qspline", "hspline", "fspline"]:
+    for kind in ["cylinder", "semicylinder", "frustum", "elbow", "extruded_ring", "expanded_ring", "onecore", "fourcore", "wrapped", "halfdisk", "oval", "qspline", "hspline", "fspline"]:
         for _ in range(1 if ctx.tier == "quick" else 4):
             r = round_record(ctx, len(recs) + 1, rng, kind)
             if r is not None:
